@@ -40,17 +40,19 @@ def _key(v, root):
         rel = str(p.resolve().relative_to(Path(root).resolve()))
     except ValueError:
         rel = "OUTSIDE:" + v.file_path
-    msg = re.sub(r"[^\s,:()]*?(app/[\w.]+)", r"\1", v.message)     # paths quoted in messages, whatever their spelling
+    msg = re.sub(r"[^\s,:()]*?((?:app/|top_level)[\w.]+)", r"\1", v.message)     # paths quoted in messages, whatever their spelling
     return (v.rule_id, rel, v.line, msg[:80])
 
 
-def _build(base, parents):
+def _build(base, parents, name="proj"):
     d = Path(base)
     for p in parents:
         d = d / p
-    d = d / "proj"
+    d = d / name
     d.mkdir(parents=True)
     triggers.write_project(d, names=set(FILES), subdir="app")
+    # a source file directly in the project directory (the walk root), next to the sub-directory
+    (d / "top_level.py").write_text(triggers.T["magic.py"][3].replace("3975", "4409"))
     return d
 
 
@@ -84,13 +86,14 @@ def make_h(tier):
             vocab = [n for n in vocab if n in ("work", "build", "dist", "venv", "node_modules", ".git", "tests", "test", "test_data", "examples", "x.test.y")]
         p1 = ctx.pick("parent", vocab)
         p2 = ctx.pick("grandparent", ("none", "build", "tests") if quick else ("none", "build", "tests", "dist", "test_data"))
+        pname = ctx.pick("project_dir_name", ("proj", "dist", "build", "node_modules", "my.egg-info")) if p2 == "none" else "proj"
         spelling = ctx.pick("spelling", ("absolute", "dot-from-inside", "relative-from-parent", "absolute-other-cwd", "file-list-absolute",
                                          "dotdot-from-excluded-subdir", "dotdot-from-plain-subdir"))
         base = _baseline()
         tmp = tempfile.mkdtemp(prefix="c09-")
         cwd0 = os.getcwd()
         try:
-            d = _build(tmp, ([p2] if p2 != "none" else []) + [p1])
+            d = _build(tmp, ([p2] if p2 != "none" else []) + [p1], pname)
             ign.clear_ignore_parser_cache()
             if spelling == "absolute":
                 vs = Linter(project_root=d).lint(d)
@@ -99,7 +102,7 @@ def make_h(tier):
                 vs = Linter().lint(".")
             elif spelling == "relative-from-parent":
                 os.chdir(d.parent)
-                vs = Linter(project_root="proj").lint("proj")
+                vs = Linter(project_root=pname).lint(pname)
             elif spelling == "absolute-other-cwd":
                 os.chdir("/")
                 vs = Linter(project_root=d).lint(str(d))
@@ -107,10 +110,10 @@ def make_h(tier):
                 sub = d / ("build" if "excluded" in spelling else "docs")
                 sub.mkdir()
                 os.chdir(sub)
-                vs = Linter(project_root=d).lint("../app")
+                vs = Linter(project_root=d).lint("../app") + Linter(project_root=d).lint("../top_level.py")
             else:
                 from src.orchestrator.core import Orchestrator
-                vs = Orchestrator(project_root=d).lint_files(sorted((d / "app").iterdir()))
+                vs = Orchestrator(project_root=d).lint_files(sorted((d / "app").iterdir()) + [d / "top_level.py"])
             got = Counter(_key(v, d) for v in vs)
         finally:
             os.chdir(cwd0)
